@@ -96,3 +96,22 @@ func verifSpecCRCExtra(s verifMsgSpec) byte {
 	c := verifCrcFold(0xFFFF, s.seed)
 	return byte(c&0xFF) ^ byte(c>>8)
 }
+
+// a dialect message whose id is chosen by the harness (used for ids that version 1 cannot represent)
+var VerifBigID uint32
+
+type MessageVerifBigID struct {
+	V uint8
+}
+
+func (*MessageVerifBigID) GetID() uint32 { return VerifBigID }
+
+func VerifDialectWithBigRW() *dialect.ReadWriter {
+	d := &dialect.ReadWriter{Dialect: &dialect.Dialect{Version: 3, Messages: []message.Message{
+		&MessageVerifScalars{}, &MessageVerifBigID{},
+	}}}
+	if err := d.Initialize(); err != nil {
+		panic(err)
+	}
+	return d
+}
